@@ -4,6 +4,7 @@
 -/
 import PsutilModel.Proofs.C01Inv
 namespace Psutil.C01
+variable {nt : Bool}
 open Spec
 
 /-! ### shape of `step` on method calls -/
@@ -29,21 +30,22 @@ theorem step_method (c : Cfg) (s : St) {call : Call} {i : Nat} {o : PObj} {r : M
 
 /-! ### the invariant -/
 
-structure Inv (clk : Nat) (s : St) : Prop where
-  kern : KInv s.kern
-  ps : PInv clk s.kern s.ps
+structure Inv (nt : Bool) (clk : Nat) (s : St) : Prop where
+  kern : KInv nt s.kern
+  ps : PInv nt clk s.kern s.ps
 
-def Ev.OK : Ev → Prop
-  | .k e => e.OK
+def Ev.OK (ev : Ev) (nt : Bool) : Prop :=
+  match ev with
+  | .k e => e.OK nt
   | .c _ => True
 
-theorem PInv.congr {clk : Nat} {k : Kernel} {ps ps' : Ps} (h : PInv clk k ps)
+theorem PInv.congr {clk : Nat} {k : Kernel} {ps ps' : Ps} (h : PInv nt clk k ps)
     (hb : ps'.bootTime = ps.bootTime) (ho : ps'.objs = ps.objs)
-    (hp : ∀ e ∈ ps'.pmap, ∃ o, ps.objs[e.2]? = some o ∧ o.pid = e.1) : PInv clk k ps' :=
+    (hp : ∀ e ∈ ps'.pmap, ∃ o, ps.objs[e.2]? = some o ∧ o.pid = e.1) : PInv nt clk k ps' :=
   ⟨fun B hB => h.boot_nz B (hb ▸ hB), fun o hm => by
     rw [ho] at hm; rw [hb]; exact h.objs o hm, fun e he => by rw [ho]; exact hp e he⟩
 
-theorem PInv.objs_nil_of_none {clk : Nat} {k : Kernel} {ps : Ps} (h : PInv clk k ps)
+theorem PInv.objs_nil_of_none {clk : Nat} {k : Kernel} {ps : Ps} (h : PInv nt clk k ps)
     (hb : ps.bootTime = none) : ps.objs = [] := by
   cases ho : ps.objs with
   | nil => rfl
@@ -52,8 +54,8 @@ theorem PInv.objs_nil_of_none {clk : Nat} {k : Kernel} {ps : Ps} (h : PInv clk k
     rw [hb] at hB; cases hB
 
 /-- initialising `BOOT_TIME` while no object exists keeps the invariant -/
-theorem PInv.setBoot {clk : Nat} {k : Kernel} {ps : Ps} (h : PInv clk k ps)
-    (hb : ps.bootTime = none) {b : Nat} (hnz : b ≠ 0) : PInv clk k { ps with bootTime := some b } :=
+theorem PInv.setBoot {clk : Nat} {k : Kernel} {ps : Ps} (h : PInv nt clk k ps)
+    (hb : ps.bootTime = none) {b : Nat} (hnz : BtOK nt b) : PInv nt clk k { ps with bootTime := some b } :=
   ⟨fun B hB => by cases hB; exact hnz, fun o hm => by
     (have : ps.objs = [] := h.objs_nil_of_none hb
      simp only [this] at hm; cases hm), h.pmap⟩
@@ -73,10 +75,10 @@ theorem bootForCreate_pmap (c : Cfg) (k : Kernel) (ps : Ps) :
     · exact bootTimeCall_pmap c k ps
   · exact bootTimeCall_pmap c k ps
 
-theorem bootForCreate_inv {c : Cfg} (hc : c.BootGood) {k : Kernel} {ps : Ps} (hk : k.btime ≠ 0)
-    (h : PInv c.clk k ps) :
-    PInv c.clk k (bootForCreate c k ps).1 ∧ (bootForCreate c k ps).1.objs = ps.objs
-      ∧ (bootForCreate c k ps).1.bootTime = some (bootForCreate c k ps).2 ∧ (bootForCreate c k ps).2 ≠ 0
+theorem bootForCreate_inv {c : Cfg} (hc : c.BootGood) {k : Kernel} {ps : Ps} (hk : BtOK c.createNoneTest k.btime)
+    (h : PInv c.createNoneTest c.clk k ps) :
+    PInv c.createNoneTest c.clk k (bootForCreate c k ps).1 ∧ (bootForCreate c k ps).1.objs = ps.objs
+      ∧ (bootForCreate c k ps).1.bootTime = some (bootForCreate c k ps).2 ∧ BtOK c.createNoneTest (bootForCreate c k ps).2
       ∧ (∀ B, ps.bootTime = some B → (bootForCreate c k ps).1.bootTime = some B) := by
   cases hb : ps.bootTime with
   | none =>
@@ -86,17 +88,17 @@ theorem bootForCreate_inv {c : Cfg} (hc : c.BootGood) {k : Kernel} {ps : Ps} (hk
     rw [bootForCreate_some hc hb (h.boot_nz B hb)]
     exact ⟨h, rfl, hb, h.boot_nz B hb, fun B' hB' => by cases hB'; exact hb⟩
 
-theorem bootTimeCall_inv {c : Cfg} (hc : c.BootGood) {k : Kernel} {ps : Ps} (hk : k.btime ≠ 0)
-    (h : PInv c.clk k ps) :
-    PInv c.clk k (bootTimeCall c k ps).1 ∧ (bootTimeCall c k ps).1.objs = ps.objs := by
+theorem bootTimeCall_inv {c : Cfg} (hc : c.BootGood) {k : Kernel} {ps : Ps} (hk : BtOK c.createNoneTest k.btime)
+    (h : PInv c.createNoneTest c.clk k ps) :
+    PInv c.createNoneTest c.clk k (bootTimeCall c k ps).1 ∧ (bootTimeCall c k ps).1.objs = ps.objs := by
   cases hb : ps.bootTime with
   | none => rw [bootTimeCall_none hb]; exact ⟨h.setBoot hb hk, rfl⟩
   | some B => rw [bootTimeCall_some hc hb]; exact ⟨h, rfl⟩
 
-theorem PInv.setObj {clk : Nat} {k : Kernel} {ps ps' : Ps} {B : Nat} {o o' : PObj} (h : PInv clk k ps)
+theorem PInv.setObj {clk : Nat} {k : Kernel} {ps ps' : Ps} {B : Nat} {o o' : PObj} (h : PInv nt clk k ps)
     (hs : PsSame ps ps') (hb : ps.bootTime = some B) (ho : ObjOK clk k B o') {i : Nat}
     (hi : ps.objs[i]? = some o) (hpid : o'.pid = o.pid) :
-    PInv clk k (setObj ps' i o') :=
+    PInv nt clk k (setObj ps' i o') :=
   ⟨fun B' hB' => h.boot_nz B' (by simpa [C01.setObj, hs.boot] using hB'), fun o hm => by
     simp only [C01.setObj] at hm ⊢
     rcases List.mem_or_eq_of_mem_set hm with hm | rfl
@@ -114,11 +116,11 @@ theorem PInv.setObj {clk : Nat} {k : Kernel} {ps ps' : Ps} {B : Nat} {o o' : POb
       exact ⟨o', List.getElem?_set_self hlt, hpid.trans hxp⟩
     · exact ⟨x, by rw [List.getElem?_set_ne hij]; exact hx, hxp⟩⟩
 
-theorem mkObj_inv {c : Cfg} (hc : c.BootGood) {k : Kernel} {ps : Ps} (hk : KInv k) (h : PInv c.clk k ps)
+theorem mkObj_inv {c : Cfg} (hc : c.BootGood) {k : Kernel} {ps : Ps} (hk : KInv c.createNoneTest k) (h : PInv c.createNoneTest c.clk k ps)
     (pid : Nat) :
     match mkObj c k ps pid with
     | (ps', none) => ps' = ps ∧ k.find pid = none
-    | (ps', some o) => PInv c.clk k { ps' with objs := ps'.objs ++ [o] } ∧ ps'.objs = ps.objs
+    | (ps', some o) => PInv c.createNoneTest c.clk k { ps' with objs := ps'.objs ++ [o] } ∧ ps'.objs = ps.objs
         ∧ o.pid = pid ∧ k.owner pid = some o.ghost ∧ o.gone = false ∧ o.reused = false
         ∧ ps'.pmap = ps.pmap ∧ (∀ B, ps.bootTime = some B → ps'.bootTime = some B) := by
   unfold mkObj
@@ -135,7 +137,8 @@ theorem mkObj_inv {c : Cfg} (hc : c.BootGood) {k : Kernel} {ps : Ps} (hk : KInv 
       · exact hp.objs o hm
       · simp only [List.mem_singleton] at hm
         subst hm
-        exact ⟨_, hbt, ⟨hk.find_lt hf, rfl, rfl, fun hd => by simp at hd, hk.nohide⟩⟩
+        exact ⟨_, hbt, ⟨hk.find_lt hf, by simp only [hk.stamp x (List.mem_of_find?_eq_some hf)], rfl,
+          fun hd => by simp at hd, hk.nohide, hk.stamp⟩⟩
     · intro e he
       obtain ⟨x', hx', hxp⟩ := hp.pmap e he
       have hlt : e.2 < (bootForCreate c k ps).1.objs.length := by
@@ -256,9 +259,9 @@ theorem iterLoop_shape (c : Cfg) (k : Kernel) (kept : List (Nat × Nat)) (evicte
                 simp only [List.length_append, List.length_singleton] at hle
                 omega
 
-theorem iterLoop_inv {c : Cfg} (hc : c.BootGood) {k : Kernel} (hk : KInv k) (kept : List (Nat × Nat))
-    (evicted : List Nat) : ∀ (l : List Nat) (ps : Ps), PInv c.clk k ps →
-      PInv c.clk k (iterLoop c k kept evicted ps l).1 := by
+theorem iterLoop_inv {c : Cfg} (hc : c.BootGood) {k : Kernel} (hk : KInv c.createNoneTest k) (kept : List (Nat × Nat))
+    (evicted : List Nat) : ∀ (l : List Nat) (ps : Ps), PInv c.createNoneTest c.clk k ps →
+      PInv c.createNoneTest c.clk k (iterLoop c k kept evicted ps l).1 := by
   intro l
   induction l with
   | nil => intro ps h; exact h
@@ -300,10 +303,10 @@ theorem processIter_shape (c : Cfg) (k : Kernel) (ps : Ps) :
   · exact Or.inl (List.mem_filter.1 (List.mem_filter.1 hk).1).1
   · exact Or.inr hf
 
-theorem processIter_inv {c : Cfg} (hc : c.BootGood) {k : Kernel} {ps : Ps} (hk : KInv k)
-    (h : PInv c.clk k ps) : PInv c.clk k (processIter c k ps).1 := by
+theorem processIter_inv {c : Cfg} (hc : c.BootGood) {k : Kernel} {ps : Ps} (hk : KInv c.createNoneTest k)
+    (h : PInv c.createNoneTest c.clk k ps) : PInv c.createNoneTest c.clk k (processIter c k ps).1 := by
   obtain ⟨⟨t, ht⟩, hpm, hy⟩ := processIter_shape c k ps
-  have hinv : PInv c.clk k (iterLoop c k
+  have hinv : PInv c.createNoneTest c.clk k (iterLoop c k
       ((ps.pmap.filter fun e => (sortPids (k.procs.map (·.pid))).contains e.1).filter
         fun e => !ps.pidsReused.contains e.1)
       (((ps.pmap.filter fun e => (sortPids (k.procs.map (·.pid))).contains e.1).filter
@@ -317,15 +320,15 @@ theorem processIter_inv {c : Cfg} (hc : c.BootGood) {k : Kernel} {ps : Ps} (hk :
     exact ⟨o, by rw [ht]; exact getElem?_append_of_some ho t, hp⟩
   · exact ⟨o, ho, hp⟩
 
-theorem method_inv {c : Cfg} (hc : c.BootGood) {s : St} (h : Inv c.clk s) {call : Call} {i : Nat} {o : PObj}
+theorem method_inv {c : Cfg} (hc : c.BootGood) {s : St} (h : Inv c.createNoneTest c.clk s) {call : Call} {i : Nat} {o : PObj}
     {r : MRes} (ho : s.ps.objs[i]? = some o) (hm : method c s.kern s.ps o call = some r) :
-    PInv c.clk s.kern (setObj r.ps i r.o) ∧ Evolves o r.o ∧ r.ps.objs = s.ps.objs := by
+    PInv c.createNoneTest c.clk s.kern (setObj r.ps i r.o) ∧ Evolves o r.o ∧ r.ps.objs = s.ps.objs := by
   obtain ⟨B, hb, hok⟩ := h.ps.objs o (List.mem_of_getElem? ho)
   have hk := method_keeps hc hb (h.ps.boot_nz B hb) hok hm
   exact ⟨h.ps.setObj hk.same hb hk.ok ho hk.evo.pid, hk.evo, hk.same.objs⟩
 
-theorem step_inv {c : Cfg} (hc : c.BootGood) (s : St) (ev : Ev) (hev : ev.OK) (h : Inv c.clk s) :
-    Inv c.clk (step c s ev).1 := by
+theorem step_inv {c : Cfg} (hc : c.BootGood) (s : St) (ev : Ev) (hev : ev.OK c.createNoneTest) (h : Inv c.createNoneTest c.clk s) :
+    Inv c.createNoneTest c.clk (step c s ev).1 := by
   cases ev with
   | k e => exact ⟨h.kern.apply e hev, h.ps.apply e hev⟩
   | c call =>
@@ -353,18 +356,18 @@ theorem step_inv {c : Cfg} (hc : c.BootGood) (s : St) (ev : Ev) (hev : ev.OK) (h
       · exact h
       · split <;> exact h
 
-def HistOK (h : List Ev) : Prop := ∀ e ∈ h, e.OK
+def HistOK (nt : Bool) (h : List Ev) : Prop := ∀ e ∈ h, e.OK nt
 
-theorem run_inv {c : Cfg} (hc : c.BootGood) (h : List Ev) : ∀ (s : St), HistOK h → Inv c.clk s →
-    Inv c.clk (run c s h) := by
+theorem run_inv {c : Cfg} (hc : c.BootGood) (h : List Ev) : ∀ (s : St), HistOK c.createNoneTest h → Inv c.createNoneTest c.clk s →
+    Inv c.createNoneTest c.clk (run c s h) := by
   induction h with
   | nil => intro s _ hi; exact hi
   | cons e es ih =>
     intro s hok hi
     exact ih _ (fun x hx => hok x (List.mem_cons_of_mem _ hx)) (step_inv hc s e (hok e List.mem_cons_self) hi)
 
-theorem init_inv (clk : Nat) {b : Nat} (hb : b ≠ 0) : Inv clk (St.init b) :=
-  ⟨⟨by simp [St.init], fun x hx => by simp [St.init] at hx, hb, rfl⟩,
+theorem init_inv (clk : Nat) {b : Nat} (hb : BtOK nt b) : Inv nt clk (St.init b) :=
+  ⟨⟨by simp [St.init], fun x hx => by simp [St.init] at hx, hb, rfl, fun x hx => by simp [St.init] at hx⟩,
    ⟨fun B hB => by simp [St.init] at hB, fun o ho => by simp [St.init] at ho,
     fun e he => by simp [St.init] at he⟩⟩
 
